@@ -299,6 +299,79 @@ theorem collect_isSome (g : Graph) (roots : List Field) : ∃ s, collect g roots
     roots [] ⟨⟨List.nodup_nil, by simp⟩, by omega⟩
   exact ⟨s', h⟩
 
+/-! ## `assertRefsLink` -/
+
+theorem linkFieldsWith_spec (P : List Nat → Prop) (rec : List Nat → Nat → Option (Outcome (List Nat)))
+    (hrec : ∀ s r, P s → (∃ e, rec s r = some (.err e)) ∨
+      ∃ s', rec s r = some (.ok s') ∧ P s' ∧ s.length ≤ s'.length) :
+    ∀ fs s, P s → (∃ e, linkFieldsWith rec s fs = some (.err e)) ∨
+      ∃ s', linkFieldsWith rec s fs = some (.ok s') ∧ P s' ∧ s.length ≤ s'.length := by
+  intro fs
+  induction fs with
+  | nil => intro s hs; exact Or.inr ⟨s, by simp [linkFieldsWith], hs, Nat.le_refl _⟩
+  | cons f fs ih =>
+    intro s hs
+    unfold linkFieldsWith
+    simp only []
+    cases ht : f.target? with
+    | none => simp only []; exact ih s hs
+    | some r =>
+      simp only []
+      rcases hrec s r hs with ⟨e, he⟩ | ⟨s1, h1, hp1, hl1⟩
+      · rw [he]; exact Or.inl ⟨e, rfl⟩
+      · rw [h1]
+        simp only []
+        rcases ih s1 hp1 with ⟨e, he⟩ | ⟨s2, h2, hp2, hl2⟩
+        · exact Or.inl ⟨e, he⟩
+        · exact Or.inr ⟨s2, h2, hp2, by omega⟩
+
+theorem linkFuel_spec (g : Graph) : ∀ fuel seen r, PathInv g seen →
+    g.length + 1 ≤ fuel + seen.length →
+    (∃ e, linkFuel g fuel seen r = some (.err e)) ∨
+      ∃ seen', linkFuel g fuel seen r = some (.ok seen') ∧ PathInv g seen' ∧ seen.length ≤ seen'.length := by
+  intro fuel
+  induction fuel with
+  | zero =>
+    intro seen r hinv hb
+    have := hinv.length_le
+    omega
+  | succ fuel ih =>
+    intro seen r hinv hb
+    unfold linkFuel
+    cases hn : g[r]? with
+    | none => exact Or.inl ⟨_, rfl⟩
+    | some node =>
+      simp only []
+      cases hc : seen.contains r with
+      | true => exact Or.inr ⟨seen, by simp, hinv, Nat.le_refl _⟩
+      | false =>
+        simp only [Bool.false_eq_true, if_false]
+        have hstart : PathInv g (r :: seen) ∧ g.length + 1 ≤ fuel + (r :: seen).length :=
+          ⟨hinv.cons hc hn, by simp only [List.length_cons]; omega⟩
+        rcases linkFieldsWith_spec
+          (fun s => PathInv g s ∧ g.length + 1 ≤ fuel + s.length)
+          (fun s r' => linkFuel g fuel s r')
+          (by
+            intro s r' hs
+            rcases ih s r' hs.1 hs.2 with he | ⟨s', e, hi, hl⟩
+            · exact Or.inl he
+            · exact Or.inr ⟨s', e, ⟨hi, by omega⟩, hl⟩)
+          (node.walkProps.map (·.field)) (r :: seen) hstart with he | ⟨s', h1, hp, hl⟩
+        · exact Or.inl he
+        · exact Or.inr ⟨s', h1, hp.1, by simp only [List.length_cons] at hl; omega⟩
+
+theorem linkRoots_isSome (g : Graph) : ∀ rs seen, PathInv g seen →
+    (linkRoots g seen rs).isSome = true := by
+  intro rs
+  induction rs with
+  | nil => intro seen _; simp [linkRoots]
+  | cons r rs ih =>
+    intro seen hinv
+    unfold linkRoots
+    rcases linkFuel_spec g (g.length + 1) seen r hinv (by omega) with ⟨e, he⟩ | ⟨s', h1, hp, _⟩
+    · rw [he]; rfl
+    · rw [h1]; exact ih s' hp
+
 /-! ### completeness: the collected set is closed under "refers to" -/
 
 /-- `a` has a property whose field refers (directly, or through arrays / maps) to the schema `b`,
